@@ -24,8 +24,9 @@ Fixpoint lex' (fuel : nat) (l : list Z) (line col : Z) : list token * list (Z * 
             | None => r
             end
         | (None, _) =>
-            let '(line', col') := advance [c] line col in
-            let r := lex' fuel' l' line' col' in
+            let txt := firstn (S (viable_len l)) l in
+            let '(line', col') := advance txt line col in
+            let r := lex' fuel' (skipn (S (viable_len l)) l) line' col' in
             (fst r, (line, col) :: snd r)
         end
     end
@@ -42,7 +43,7 @@ Proof.
     + destruct (advance (firstn n (c :: l')) line col) as [line' col'].
       destruct k as [kind|]; rewrite IH; cbn [fst snd rev]; [|reflexivity].
       now rewrite <- app_assoc.
-    + destruct (advance [c] line col) as [line' col'].
+    + destruct (advance (firstn (S (viable_len (c :: l'))) (c :: l')) line col) as [line' col'].
       rewrite IH. cbn [fst snd rev]. now rewrite <- app_assoc.
 Qed.
 
@@ -97,12 +98,14 @@ Proof.
         exists [], (skipn n (c :: l')). cbn [tk_text tk_line tk_col app]. rewrite app_nil_r.
         repeat split; [exact Hsplit|exact Hpos|exact Ht].
       * split; [|exact He]. revert Ht Hsplit. generalize (firstn n (c :: l')) (skipn n (c :: l')). intros pre post Ht ->. now apply tiled_shift.
-    + destruct (advance [c] line col) as [line' col'] eqn:Ea.
-      assert (Hpos' : (line', col') = advance (consumed ++ [c]) 0 0).
+    + clear n. set (n := S (viable_len (c :: l'))).
+      destruct (advance (firstn n (c :: l')) line col) as [line' col'] eqn:Ea.
+      assert (Hsplit : c :: l' = firstn n (c :: l') ++ skipn n (c :: l')) by (symmetry; apply firstn_skipn).
+      assert (Hpos' : (line', col') = advance (consumed ++ firstn n (c :: l')) 0 0).
       { rewrite advance_app, <- Hpos. cbn [fst snd]. now rewrite Ea. }
-      destruct (IH l' (consumed ++ [c]) line' col' Hpos') as [Ht He].
-      rewrite <- app_assoc in He. cbn [app] in He. cbn [fst snd]. split.
-      * change (c :: l') with ([c] ++ l'). now apply tiled_shift.
+      destruct (IH (skipn n (c :: l')) (consumed ++ firstn n (c :: l')) line' col' Hpos') as [Ht He].
+      rewrite <- app_assoc, <- Hsplit in He. cbn [fst snd]. split.
+      * revert Ht Hsplit. generalize (firstn n (c :: l')) (skipn n (c :: l')). intros pre post Ht ->. now apply tiled_shift.
       * constructor; [|exact He]. exists consumed, c, l'. split; [reflexivity|exact Hpos].
 Qed.
 
